@@ -277,6 +277,104 @@ def run_resume(case, ctx):
         ctx.nontrivial = interruptions >= 1 and len(speccheck.non_verification_rules(spec)) >= 1
 
 
+def _drain(searcher, max_levels=40):
+    from comb_spec_searcher.exception import NoMoreClassesToExpandError
+
+    for _ in range(max_levels):
+        try:
+            searcher.do_level()
+        except NoMoreClassesToExpandError:
+            return True
+    return False
+
+
+def _universe(db):
+    """Class-level view of everything a recording rule db was given."""
+    out = set()
+    for start, ends, rule, _ in db.log:
+        out.add((repr(rule.comb_class), tuple(repr(c) for c in rule.children), repr(rule.strategy)))
+    return out
+
+
+def run_resume_exhaust(case, ctx):
+    """No work is lost by an interruption: a finite universe explored to
+    exhaustion is the same with and without ExceededMaxtimeError interruptions."""
+    from comb_spec_searcher.exception import ExceededMaxtimeError
+
+    from vf.props.c04 import recording_db
+
+    refusals = documented_search_refusals()
+    # A: uninterrupted
+    with controlled(case.get("clock"), case.get("rng", 0)):
+        try:
+            db_a = recording_db(case["db"])
+            _, _, sa = make_searcher(case, ruledb=db_a, classqueue=CountingQueue)
+            done_a = _drain(sa)
+        except Exception as e:
+            ctx.label("search-crash")
+            return
+        finally:
+            requiet()
+    if not done_a:
+        ctx.label("not-finite")
+        return
+    # B: interrupted several times, then drained
+    with controlled(case.get("clock"), case.get("rng", 0)) as clock:
+        db_b = recording_db(case["db"])
+        _, _, sb = make_searcher(case, ruledb=db_b, classqueue=CountingQueue)
+        q = sb.classqueue
+        orig_time = clock.time
+        target = [None]
+
+        def time_with_trigger():
+            if target[0] is not None and q.count >= target[0]:
+                target[0] = None
+                clock.jump(4000.0)
+            return orig_time()
+
+        clock.time = time_with_trigger
+        interruptions = 0
+        for k in case["ks"]:
+            target[0] = q.count + k
+            try:
+                sb.auto_search(max_expansion_time=3000.0)
+                break
+            except ExceededMaxtimeError:
+                interruptions += 1
+            except refusals:
+                break
+            except Exception as e:
+                ctx.fail("resume-crash", f"auto_search after {interruptions} interruptions raised {describe_exc(e)}", f"resume-crash/{type(e).__name__}")
+                return
+        target[0] = None
+        try:
+            done_b = _drain(sb)
+        except Exception as e:
+            ctx.fail("resume-crash", f"do_level after {interruptions} interruptions raised {describe_exc(e)}", f"resume-crash/{type(e).__name__}")
+            return
+        finally:
+            requiet()
+    ua, ub = _universe(db_a), _universe(db_b)
+    ctx.check(done_b, "resume-exhaust", "the interrupted search does not run dry although the uninterrupted one does")
+    if ua != ub:
+        ctx.fail(
+            "lost-work",
+            f"after {interruptions} interruptions the exhausted universe differs from the uninterrupted one: "
+            f"missing {sorted(ua - ub)[:2]}, extra {sorted(ub - ua)[:2]} ({len(ua)} vs {len(ub)} rules)",
+        )
+    ctx.label(f"interruptions:{min(interruptions, 4)}")
+    ctx.nontrivial = interruptions >= 1 and len(ua) >= 5
+
+
+@st.composite
+def exhaust_case(draw, tier="quick"):
+    case = draw(gen.scenario(tier, finite=True, allow_reverse_template=False))
+    case["expand_verified"] = True
+    case["debug"] = False
+    case["ks"] = draw(st.lists(st.sampled_from([1, 1, 2, 3, 5, 8]), min_size=1, max_size=5))
+    return case
+
+
 @st.composite
 def plan_desc(draw):
     steps = []
@@ -363,6 +461,13 @@ def subchecks():
             run_case=run_resume,
             strategy=lambda tier: resume_case(tier),
             examples={"quick": 1200, "thorough": 20000},
+            case_timeout=30.0,
+        ),
+        SubCheck(
+            name="resume-exhaust",
+            run_case=run_resume_exhaust,
+            strategy=lambda tier: exhaust_case(tier),
+            examples={"quick": 1000, "thorough": 15000},
             case_timeout=30.0,
         ),
         SubCheck(
